@@ -2,6 +2,7 @@ package main
 
 import (
 	"fmt"
+	"go/types"
 
 	"golang.org/x/tools/go/ssa"
 )
@@ -19,7 +20,70 @@ type quantInfo struct {
 	q      *Term
 	body   *Term // includes the range guard
 	sk     *Term
+	qs     []*Term // all bound variables (qs[0] == q)
+	sks    []*Term // Skolem witnesses, one per bound variable
 	triggers []*Term
+}
+
+func (qi *quantInfo) substMap(ts []*Term) map[string]*Term {
+	m := map[string]*Term{}
+	for i, q := range qi.qs {
+		m[q.name] = ts[i]
+	}
+	return m
+}
+
+func tupleKey(ts []*Term) string {
+	k := ""
+	for _, t := range ts {
+		k += fmt.Sprintf("%d,", t.id)
+	}
+	return k
+}
+
+// mapQuantifier: vMapAll(m, f) == forall keys k. k in dom(m) => f(k, m[k]).
+// The bound variables are the key leaves (for string keys: the key identity).
+func (e *Engine) mapQuantifier(fr *Frame, st *State, args []Value, site ssa.Instruction, mtype types.Type) *Term {
+	cl := args[1].C
+	if cl == nil {
+		unsup("vMapAll needs a function literal")
+	}
+	mt := mtype.Underlying().(*types.Map)
+	ref := args[0].term()
+	var qs, sks []*Term
+	var k Value
+	tmp := st.clone()
+	if isStringType(mt.Key()) {
+		q := FreshVar("qk", 64)
+		qs = []*Term{q}
+		sks = []*Term{FreshVar("skk", 64)}
+		k = Value{T: []*Term{UF("strkey.r", RegionSort, q), UF("strkey.o", IntSort, q), UF("strkey.l", IntSort, q)}}
+		tmp.assume(wfAssumptions(k.T, mt.Key(), false))
+	} else {
+		kts := freshTerms("qk", mt.Key())
+		qs = kts
+		for _, q := range kts {
+			sks = append(sks, FreshVar("skk", q.sort))
+		}
+		k = e.unflat(kts, mt.Key())
+	}
+	present, val := e.mapRead(tmp, mtype, ref, k)
+	tmp.assume(present)
+	nf := e.newFrame(cl.fn, fr)
+	nf.freevars = cl.bindings
+	nf.spec = true
+	nf.quiet = true
+	nf.prefix = fr.prefix
+	vals := e.finishCall(fr, tmp, nf, []Value{k, e.unflat(val, mt.Elem())}, site)
+	b := vals[0].term()
+	body := Implies(present, b)
+	if !isStringType(mt.Key()) {
+		body = Implies(And(present, wfAssumptions(qs, mt.Key(), false)), b)
+	}
+	p := FreshVar("Q", BoolSort)
+	qi := &quantInfo{forall: true, p: p, q: qs[0], body: body, sk: sks[0], qs: qs, sks: sks}
+	e.quantVars[p.name] = qi
+	return p
 }
 
 func (e *Engine) quantifier(fr *Frame, st *State, forall bool, args []Value, site ssa.Instruction) *Term {
@@ -47,6 +111,7 @@ func (e *Engine) quantifier(fr *Frame, st *State, forall bool, args []Value, sit
 	}
 	p := FreshVar("Q", BoolSort)
 	qi := &quantInfo{forall: forall, p: p, q: q, body: body, sk: FreshVar("sk", IntSort)}
+	qi.qs, qi.sks = []*Term{qi.q}, []*Term{qi.sk}
 	e.quantVars[p.name] = qi
 	_ = fmt.Sprint
 	return p
@@ -58,13 +123,15 @@ func (e *Engine) quantifier(fr *Frame, st *State, forall bool, args []Value, sit
 // at (r', j) with r' possibly equal to r, taking q := j - c.
 func (e *Engine) expandQuantifiers(fs []*Term, goalFs []*Term) []*Term {
 	var axioms []*Term
-	done := map[string]map[int]bool{} // placeholder -> instantiated term ids
+	done := map[string]map[string]bool{} // placeholder -> instantiated term ids
 	skdone := map[string]bool{}
 	all := append([]*Term(nil), fs...)
 	polFs := append([]*Term(nil), fs...) // formulas that determine polarities (axiom heads excluded)
 	boundNames := map[string]bool{}
 	for _, qi := range e.quantVars {
-		boundNames[qi.q.name] = true
+		for _, q := range qi.qs {
+			boundNames[q.name] = true
+		}
 	}
 	// ground terms used for matching come from the goal side (and from the
 	// axioms generated here), not from the whole path condition: instances are
@@ -113,7 +180,7 @@ func (e *Engine) expandQuantifiers(fs []*Term, goalFs []*Term) []*Term {
 			}
 			if needWitness && !skdone[qi.p.name] {
 				skdone[qi.p.name] = true
-				inst := Subst(qi.body, map[string]*Term{qi.q.name: qi.sk})
+				inst := Subst(qi.body, qi.substMap(qi.sks))
 				if qi.forall {
 					newAx = append(newAx, Or(qi.p, Not(inst)))
 					polFs = append(polFs, Not(inst))
@@ -127,17 +194,26 @@ func (e *Engine) expandQuantifiers(fs []*Term, goalFs []*Term) []*Term {
 			}
 			d := done[qi.p.name]
 			if d == nil {
-				d = map[int]bool{}
+				d = map[string]bool{}
 				done[qi.p.name] = d
 			}
 			n := 0
-			for _, t := range e.matchInstances(qi, ground) {
-				if d[t.id] || n > 64 {
+			var cands [][]*Term
+			if len(qi.qs) == 1 && qi.q.sort == IntSort && qi.q.name[:2] != "qk" {
+				for _, t := range e.matchInstances(qi, ground) {
+					cands = append(cands, []*Term{t})
+				}
+			} else {
+				cands = e.matchTuples(qi, ground)
+			}
+			for _, ts := range cands {
+				tk := tupleKey(ts)
+				if d[tk] || n > 64 {
 					continue
 				}
-				d[t.id] = true
+				d[tk] = true
 				n++
-				inst := Subst(qi.body, map[string]*Term{qi.q.name: t})
+				inst := Subst(qi.body, qi.substMap(ts))
 				if qi.forall {
 					newAx = append(newAx, Or(Not(qi.p), inst))
 					polFs = append(polFs, inst)
@@ -257,6 +333,78 @@ func (e *Engine) matchInstances(qi *quantInfo, ground []*Term) []*Term {
 			loose = loose[:8]
 		}
 		return loose
+	}
+	return out
+}
+
+// matchTuples: triggers are uninterpreted applications in which every bound variable occurs
+// as a direct argument; each ground application of the same function whose other arguments
+// may be equal yields one instance.
+func (e *Engine) matchTuples(qi *quantInfo, ground []*Term) [][]*Term {
+	var out [][]*Term
+	seen := map[string]bool{}
+	qpos := map[string]int{}
+	for i, q := range qi.qs {
+		qpos[q.name] = i
+	}
+	names := map[string]bool{}
+	for _, q := range qi.qs {
+		names[q.name] = true
+	}
+	var trig []*Term
+	Walk(qi.body, map[int]bool{}, func(t *Term) {
+		if t.op == "uf" && mentionsAny(t, names) {
+			trig = append(trig, t)
+		}
+	})
+	for _, p := range trig {
+		pos := make([]int, len(qi.qs))
+		for i := range pos {
+			pos[i] = -1
+		}
+		ok := true
+		for i, a := range p.args {
+			if a.op == "var" && names[a.name] {
+				pos[qpos[a.name]] = i
+			} else if mentionsAny(a, names) {
+				ok = false
+			}
+		}
+		for _, x := range pos {
+			if x < 0 {
+				ok = false
+			}
+		}
+		if !ok {
+			continue
+		}
+		isPos := map[int]bool{}
+		for _, x := range pos {
+			isPos[x] = true
+		}
+		for _, g := range ground {
+			if g.name != p.name || len(g.args) != len(p.args) {
+				continue
+			}
+			match := true
+			for i := range g.args {
+				if !isPos[i] && EqOff(g.args[i], p.args[i]) == False {
+					match = false
+					break
+				}
+			}
+			if !match {
+				continue
+			}
+			ts := make([]*Term, len(qi.qs))
+			for i, x := range pos {
+				ts[i] = g.args[x]
+			}
+			if k := tupleKey(ts); !seen[k] {
+				seen[k] = true
+				out = append(out, ts)
+			}
+		}
 	}
 	return out
 }
